@@ -392,6 +392,21 @@ def r6(ctx, cfg):
         reads = [(b, t) for b, t in f.calls() if t["callee"].get("trait") == "cosmwasm_std::Storage"]
         ok = bool(reads) and all(peel(P.call_args(f, t, b)[0])[0] == "call" and peel(P.call_args(f, t, b)[0])[1] == "wasm::Wasm::contract_storage" for b, t in reads)
         ctx.ob(R, key, "reads-only-through-window", ok, "%s reads storage outside the contract window" % key, fn=f, sample="%d reads" % len(reads))
+        if key.endswith("query_raw"):
+            # ... and the answer is what the window holds under the asked key, for every key (the empty key included): each
+            # result either is made from `get(key)` or is produced on the edge where `get(key)` found nothing
+            def is_get(x):
+                return x[0] == "call" and x[1] == "cosmwasm_std::Storage::get" and len(x[2]) == 2 and is_param(x[2][1], "key")
+            bad = []
+            for val, conds, site in q.value_cases(P, f, 0):
+                if contains(val, is_get):
+                    continue
+                if any(c[0] == "variant_in" and c[2] == ("None",) and contains(c[1], is_get) for e, c in conds):
+                    continue
+                bad.append(fmt(val)[:60])
+            ctx.ob(R, key, "answer-is-the-window's-value-under-the-key", not bad,
+                   "query_raw can answer %s without having looked the key up in the contract's window" % bad, fn=f,
+                   sample="Binary::from(window.get(key).unwrap_or_default())")
     for key, callee, stmut in (("app::App::contract_storage", "wasm::Wasm::contract_storage", False),
                                ("app::App::contract_storage_mut", "wasm::Wasm::contract_storage_mut", True)):
         f = ctx.need_fn(R, key)
